@@ -7,7 +7,7 @@ use proptest::prelude::*;
 use proptest::sample::select;
 use serde_json::json;
 
-use model::prep::{derive_rust, DeriveOut};
+use model::prep::{derive_rust, normalize_tokens, DeriveOut};
 use model::run::{drive, report_violation, Args, DriveResult, Run};
 use model::fnv;
 
@@ -136,7 +136,7 @@ fn check(case: &AttrCase, run: &mut Run) -> Result<(), String> {
                 d.errors
             ));
         }
-        if canon_ok && d.output != canon.output {
+        if canon_ok && normalize_tokens(&d.output) != normalize_tokens(&canon.output) {
             return Err(format!("argument order changes the generated implementation:\n{}\nvs canonical\n{}", d.rust, canon.rust));
         }
     }
@@ -185,7 +185,7 @@ fn check(case: &AttrCase, run: &mut Run) -> Result<(), String> {
                     a == b
                 };
                 if skips_in_order {
-                    if d.output != canon.output {
+                    if normalize_tokens(&d.output) != normalize_tokens(&canon.output) {
                         return Err(format!("#[logos(...)] item order changes the generated implementation:\n{}\nvs canonical\n{}", d.rust, canon.rust));
                     }
                 } else {
@@ -249,6 +249,8 @@ fn strategy() -> BoxedStrategy<AttrCase> {
             ("error(MyError, my_error_cb)", false, false),
             ("error(MyError, callback = |lex| MyError::new(lex.span()))", false, false),
             ("extras = MyExtras", false, false),
+            ("extras = Vec<u32>", false, false),
+            ("error = Result<u8, Box<MyError>>", false, false),
             ("crate = my::logos", false, false),
             ("subpattern ws = \"[ \\n]\"", false, true),
             ("subpattern ws2 = \"(?&ws)(?&ws)\"", false, true),
@@ -298,7 +300,7 @@ pub fn main(args: &Args) -> i32 {
         let a = v["canonical"].as_str().unwrap().to_string();
         let b = v["permuted"].as_str().unwrap().to_string();
         let (da, db) = (derive_rust(a), derive_rust(b));
-        let same = da.errors.is_empty() == db.errors.is_empty() && (!da.errors.is_empty() || da.output == db.output || v["skips_reordered"].as_bool().unwrap_or(false));
+        let same = da.errors.is_empty() == db.errors.is_empty() && (!da.errors.is_empty() || normalize_tokens(&da.output) == normalize_tokens(&db.output) || v["skips_reordered"].as_bool().unwrap_or(false));
         return if same {
             println!("replay: no violation of C18");
             0
